@@ -116,6 +116,45 @@ def build(pipe: str, faults: list[dict], sid: str) -> dict:
     return {"id": sid, "files": files, "resfiles": res, "steps": [{"argv": argv, "inject": inject, "keep_after": True}]}
 
 
+def _deep_nesting_probe(chk: Check) -> None:
+    """A file the parser cannot take because of its nesting depth, next to a good one: run through the console script in
+    a process of its own (a crash of the parser is a crash of the process)."""
+    import os
+    import shutil
+    import subprocess
+    import tempfile
+
+    from ..common import scratch_root
+
+    work = tempfile.mkdtemp(prefix="deep-", dir=scratch_root())
+    target = os.path.join(work, "target")
+    os.makedirs(target)
+    depth = 1300
+    with open(os.path.join(target, "m_deep.py"), "w") as f:
+        f.write("assert (1, 2)\nx = " + "(" * depth + "1" + ")" * depth + "\n")
+    with open(os.path.join(target, "ok.py"), "w") as f:
+        f.write("assert (1, 'two')\n")
+    out = os.path.join(work, "out.codetf")
+    env = {k: v for k, v in os.environ.items() if not k.startswith("CODEMODDER_")}
+    p = subprocess.run(["/venv/bin/codemodder", target, "--output", out, "--codemod-include", "pixee:python/fix-assert-tuple"],
+                       capture_output=True, text=True, errors="replace", env=env, timeout=600, cwd=work)
+    chk.count()
+    chk.nontrivial(("deep-nesting", depth))
+    ok_after = open(os.path.join(target, "ok.py")).read()
+    report = os.path.isfile(out) and os.path.getsize(out) > 0
+    problems = []
+    if p.returncode != 0:
+        problems.append(f"exit status {p.returncode}")
+    if not report:
+        problems.append("no report")
+    if "assert 1" not in ok_after:
+        problems.append("the good file next to it was not processed")
+    if problems:
+        chk.violation("C10|deep-nesting|run-stopped", f"a file with {depth} nested parentheses next to a good file: {problems}; stderr: {p.stderr[-200:]!r}",
+                      {"files": {"m_deep.py": f"assert (1, 2)\\nx = {'(' * 3}...{depth} levels...1{')' * 3}", "ok.py": "assert (1, 'two')\n"}, "exit": p.returncode})
+    shutil.rmtree(work, ignore_errors=True)
+
+
 def run(chk: Check) -> None:
     d = scratch("faults")
     (d / "Faults.tla").write_text((tlc.SPEC_DIR / "Faults.tla").read_text())
@@ -228,6 +267,7 @@ def run(chk: Check) -> None:
                            "argv": next(s for s in scenarios if s["id"] == sid)["steps"][0]["argv"],
                            "inject": next(s for s in scenarios if s["id"] == sid)["steps"][0]["inject"]})
     chk.coverage["placements_where_a_fault_fired"] = fired
+    _deep_nesting_probe(chk)
     chk.sample({"placement": placements[0][:2], "mustFail": placements[0][2]})
     chk.sample({"placement": placements[-1][:2], "mustFail": placements[-1][2]})
     chk.assumptions += [
